@@ -17,7 +17,7 @@
      * Write(o): the write guard `real(o) => owner(o) = st` of IsReadonlyBy/DidUpdate; a failed
        guard aborts the transaction (nothing persists);
      * construction of a value of a realm-declared type requires st = declaring realm
-       (Allocator.checkConstructionTime) - action Construct.
+       (Allocator.checkConstructionTime, doOpConvert) - action Construct.
 
    Named deviation switch EphemeralIsRealm.  The specification calls MsgRun packages "ephemeral
    realms (/e/)" and states borrow rule #1 for every callable declared in a realm package
@@ -37,8 +37,11 @@
                open cases; the driver's oracle is model independent;
      control - the write is performed by code of the victim or of the trusted library on a
                victim-owned receiver (must mutate: shows the harness observes mutations);
-     open    - a top-level /p/ function of the attacker running with authority inherited from an
-               authorised frame (documented "no-anchor"/Apply class, gno-interrealm-v2 4.4). *)
+     open    - a top-level /p/ function (or value-receiver /p/ method) of the attacker running with authority
+               inherited from an authorised frame (documented "no-anchor"/Apply class, gno-interrealm-v2 4.4,
+               gno-security-guide 3(B)/(C));
+     forbid  - the statement's two other clauses: constructing a value of a victim-declared type (composite
+               literal, new, conversion) in attacker code, and persisting a realm value; the transaction must fail. *)
 EXTENDS Integers, Sequences, FiniteSets, TLC, Json
 
 CONSTANTS Pkgs, Victim, EphemeralIsRealm, MaxDepth, MaxFvals, Shapes,
@@ -49,9 +52,9 @@ Ctxs == CtxsC
 Paths == PathsC
 Writes == WritesC
 
-VARIABLES stack, fvals, val, aborted, wlog, n, hist
-vars == <<stack, fvals, val, aborted, wlog, n, hist>>
-View == <<stack, fvals, val, aborted, wlog, n>>
+VARIABLES stack, fvals, val, aborted, wlog, made, n, hist
+vars == <<stack, fvals, val, aborted, wlog, made, n, hist>>
+View == <<stack, fvals, val, aborted, wlog, made, n>>
 
 None == "none"
 NoWrite == [obj |-> None, code |-> None, st |-> None, auth |-> FALSE]
@@ -112,6 +115,7 @@ Init ==
   /\ val = [o \in Objs |-> 0]
   /\ aborted = FALSE
   /\ wlog = NoWrite
+  /\ made = {}
   /\ n = 0
   /\ hist = <<>>
 
@@ -121,20 +125,20 @@ Call(c) ==
   /\ ~aborted /\ Len(stack) < MaxDepth
   /\ c.kind = "cross" => KindOf[c.pkg] = "r"
   /\ stack' = Append(stack, Push(Top, c, EphemeralIsRealm))
-  /\ UNCHANGED <<fvals, val, aborted, wlog>>
+  /\ UNCHANGED <<fvals, val, aborted, wlog, made>>
   /\ Step([act |-> "Call", kind |-> c.kind, pkg |-> c.pkg, recv |-> c.recv, minter |-> c.minter])
 
 Return ==
   /\ ~aborted /\ Len(stack) > 1
   /\ stack' = SubSeq(stack, 1, Len(stack) - 1)
-  /\ UNCHANGED <<fvals, val, aborted, wlog>>
+  /\ UNCHANGED <<fvals, val, aborted, wlog, made>>
   /\ Step([act |-> "Return"])
 
 Mint ==   \* the running frame evaluates a FuncLit: the closure is stamped with the storage context
   /\ ~aborted /\ Cardinality(fvals) < MaxFvals
   /\ C(Top.code, Top.st) \notin fvals
   /\ fvals' = fvals \cup {C(Top.code, Top.st)}
-  /\ UNCHANGED <<stack, val, aborted, wlog>>
+  /\ UNCHANGED <<stack, val, aborted, wlog, made>>
   /\ Step([act |-> "Mint", pkg |-> Top.code, minter |-> Top.st])
 
 Write(o) ==
@@ -146,16 +150,28 @@ Write(o) ==
      ELSE /\ aborted' = TRUE              \* readonly panic: the transaction fails, nothing persists
           /\ val' = [x \in Objs |-> 0]
           /\ wlog' = NoWrite
-  /\ UNCHANGED <<stack, fvals>>
+  /\ UNCHANGED <<stack, fvals, made>>
   /\ Step([act |-> "Write", obj |-> o])
 
-MachineNext == ( (\E c \in Callable(Top) : Call(c)) \/ Return \/ Mint \/ (\E o \in Objs : Write(o)) )
+\* composite literal / new() / conversion producing a value of a type declared in realm p: allowed only while
+\* the storage context is p (Allocator.checkConstructionTime, doOpConvert case 2); otherwise the tx aborts
+Construct(p) ==
+  /\ ~aborted /\ KindOf[p] = "r"
+  /\ IF Top.st = p
+     THEN made' = made \cup {[typ |-> p, code |-> Top.code]} /\ UNCHANGED <<aborted, val, wlog>>
+     ELSE aborted' = TRUE /\ val' = [x \in Objs |-> 0] /\ wlog' = NoWrite /\ UNCHANGED made
+  /\ UNCHANGED <<stack, fvals>>
+  /\ Step([act |-> "Construct", pkg |-> p])
+
+MachineNext == (\E p \in Pkgs : Construct(p)) \/ ( (\E c \in Callable(Top) : Call(c)) \/ Return \/ Mint \/ (\E o \in Objs : Write(o)) )
 
 \* ---- invariants of the machine
 StorageImpliesAuthority == \A i \in 1..Len(stack) : stack[i].st = Victim => stack[i].auth
 AttackerTextNeverAuthorised == \A i \in 1..Len(stack) : KindOf[stack[i].code] \in {"r", "e"} /\ stack[i].code # Victim => stack[i].st # Victim
 NoForeignWrite == (wlog.obj # None /\ RealObj(wlog.obj) /\ OwnerOf[wlog.obj] = Victim) => wlog.auth
 NothingPersistsFromAbort == aborted => \A o \in Objs : val[o] = 0
+\* a value of a victim-declared type is never constructed by code written outside the victim
+ConstructOnlyAtHome == \A m \in made : m.typ = Victim => m.code = Victim
 RealmCodeRunsAtHome == \A i \in 1..Len(stack) : RealmDeclared(stack[i].code, EphemeralIsRealm) => stack[i].st = stack[i].code
 
 \* ------------------------------------------------------------------ SHAPES
@@ -172,12 +188,13 @@ ShapeRec(ctx, path, wk, inl) ==
       chE == Chain(Main, WriterChain(ctx, path, wk), FALSE)
       wD == chD[Len(chD)]
       wE == chE[Len(chE)]
-      cls == IF wD.code \in {Victim, "L"} THEN "control"
+      cls == IF path.typ \in {"ctor", "pcur"} THEN "forbid"
+             ELSE IF wD.code \in {Victim, "L"} THEN "control"
              ELSE IF wD.code = "Q" /\ wD.auth THEN "open"
              ELSE "verdict"
   IN [act |-> "Shape", ctx |-> ctx.name, path |-> path.name, wk |-> wk.name, inl |-> inl,
       wcode |-> wD.code, wst |-> wD.st, cls |-> cls,
-      mutDoc |-> (wD.st = Victim), mutEph |-> (wE.st = Victim), depth |-> Len(chD)]
+      mutDoc |-> (path.typ # "pcur" /\ wD.st = Victim), mutEph |-> (path.typ # "pcur" /\ wE.st = Victim), depth |-> Len(chD)]
 
 Pick ==
   /\ n = 0
@@ -189,7 +206,7 @@ Pick ==
           IN /\ stack' = ch
              /\ hist' = <<r>>
              /\ n' = 1
-  /\ UNCHANGED <<fvals, val, aborted, wlog>>
+  /\ UNCHANGED <<fvals, val, aborted, wlog, made>>
 
 ShapeWrite ==
   /\ n = 1
@@ -200,14 +217,14 @@ ShapeWrite ==
              /\ UNCHANGED aborted
         ELSE /\ aborted' = TRUE /\ UNCHANGED <<val, wlog>>
   /\ n' = 2
-  /\ UNCHANGED <<stack, fvals, hist>>
+  /\ UNCHANGED <<stack, fvals, hist, made>>
 
 ShapeNext == Pick \/ ShapeWrite
 
 \* every verdict shape is blocked by the documented rules; every control mutates
-VerdictShapesBlocked == (Shapes /\ n >= 1) => (hist[1].cls = "verdict" => ~hist[1].mutDoc)
+VerdictShapesBlocked == (Shapes /\ n >= 1) => (hist[1].cls \in {"verdict", "forbid"} => ~hist[1].mutDoc)
 ControlsMutate == (Shapes /\ n >= 1) => (hist[1].cls \in {"control", "open"} => hist[1].mutDoc)
-ShapeAgreesWithMachine == (Shapes /\ n = 2) => ((val["vR"] = 1) <=> hist[1].mutDoc)
+ShapeAgreesWithMachine == (Shapes /\ n = 2 /\ hist[1].cls # "forbid") => ((val["vR"] = 1) <=> hist[1].mutDoc)
 
 Next == IF Shapes THEN ShapeNext ELSE MachineNext
 Spec == Init /\ [][Next]_vars
